@@ -21,10 +21,15 @@ starting with ≥ 10 bytes ≥ 0x80 referenced as user); they are kept below as 
 (now: exceptions) and in corpus/C03/o5m_seeds.ops.
 -/
 import Osmium.Lemmas.O5mSafe
+import Osmium.Lemmas.HostileO5m
+import Osmium.Lemmas.HostileGuards
 
 namespace Osmium.O5m.C03
 
 open Osmium.O5m Osmium.Wire Osmium.Osm
+
+/-- o5m file header -/
+def hdr' : Bytes := [0xff, 0xe0, 0x04, 0x6f, 0x35, 0x6d, 0x32]
 
 /-- the table invariant the decoders rely on and maintain: no slot holds more than `max_length` bytes -/
 abbrev TableOk (t : Table) : Prop := SlotsOk t
@@ -76,6 +81,47 @@ theorem o5m_table_ok (cfg : Cfg) (st : St) (h : TableOk st.tab) (d : Bytes) :
   · intro o st' e; have := decodeNode_safe cfg st h d; rw [e] at this; exact this
   · intro o st' e; have := decodeWay_safe cfg st h d; rw [e] at this; exact this
   · intro o st' e; have := decodeRelation_safe cfg st h d; rw [e] at this; exact this
+
+/-! ### every delivered object can be traversed in bounds -/
+
+open Osmium.HostileLayout Osmium.HostilePbf in
+/-- `o5m_decoded_objects_wf` — END TO END for the o5m reader: for EVERY byte string (any chunking,
+    both build modes, every entity filter), every object the decoder model delivers satisfies all
+    builder `Guards`: user name, tag keys / values and roles are at most `max_osm_string_length`
+    bytes (`decode_user`, `add_tag`, `add_role` throw otherwise) and contain no NUL byte BY
+    CONSTRUCTION — the decoder walks each string up to its first NUL (`walkPost` / `walkPre`) and
+    hands exactly that C string to the builder.  Hence the item the builders write for it
+    (`HostilePbf.toObjS`: set_user, node refs / members, tags) is well-formed and its complete
+    traversal stays in bounds and returns what was put in.  Premise: the item is smaller than 4 GiB
+    (the builders throw std::length_error before the 32-bit size wraps: repair 2935e9f; the decoder
+    model carries no size bound). -/
+theorem o5m_decoded_objects_wf (cfg : Cfg) (cs : List Bytes) (h : FileHeader) (objs : List Object)
+    (fill : UInt8) (fixed : Bytes) (hd : decodeChunks cfg cs = .ok (h, objs)) (o : Object) (ho : o ∈ objs)
+    (hf : fixed.length = (toObjS fixed o).kind.sizeT - 8)
+    (hs : objSize fill (toObjS fixed o) < 2 ^ 32) :
+    Guards fill (toObjS fixed o) ∧ Layout.WF (build fill (toObjS fixed o)) = true ∧
+    ∃ fields, Layout.decodeAll (build fill (toObjS fixed o)) =
+      .ok [.mk (toObjS fixed o).kind.ty false fields [(toObjS fixed o).user] ((toObjS fixed o).subs.map subTree)] := by
+  obtain ⟨hstr, hnc⟩ := HostileO5m.decodeChunks_objects_strings cfg cs h objs hd o ho
+  have g : Guards fill (toObjS fixed o) := toObjS_guards fill fixed o hstr hnc hf hs
+  exact ⟨g, (guards_wf fill _ g).1, (guards_wf fill _ g).2⟩
+
+/-- the same for the whole file in one buffer -/
+theorem o5m_decoded_objects_guards (cfg : Cfg) (b : Bytes) (h : FileHeader) (objs : List Object)
+    (fill : UInt8) (fixed : Bytes) (hd : decode cfg b = .ok (h, objs)) (o : Object) (ho : o ∈ objs)
+    (hf : fixed.length = (HostilePbf.toObjS fixed o).kind.sizeT - 8)
+    (hs : HostileLayout.objSize fill (HostilePbf.toObjS fixed o) < 2 ^ 32) :
+    HostileLayout.Guards fill (HostilePbf.toObjS fixed o) :=
+  (o5m_decoded_objects_wf cfg _ h objs fill fixed hd o ho hf hs).1
+
+/-- non-vacuity: a relation with user "u", tag k=v and a member with role "r" is delivered, and the
+    premises on `fixed` and the size are satisfiable for it -/
+example : ∃ o, decode {} (hdr' ++ [0x12, 0x14, 0x02, 0x01, 0x02, 0x02, 0x00, 0x02, 0x00, 0x75, 0x00, 0x05, 0x02, 0x00, 0x30, 0x72, 0x00,
+        0x00, 0x6b, 0x00, 0x76, 0x00, 0xfe]) = .ok ({}, [o]) ∧
+    (HostileLayout.ctorFixed .relation).length = (HostilePbf.toObjS (HostileLayout.ctorFixed .relation) o).kind.sizeT - 8 ∧
+    HostileLayout.objSize 0 (HostilePbf.toObjS (HostileLayout.ctorFixed .relation) o) < 2 ^ 32 := by
+  refine ⟨.relation { id := 1, version := 1, timestamp := 1, changeset := 1, uid := 2, user := [0x75], tags := [⟨[0x6b], [0x76]⟩] }
+    [⟨1, 1, [0x72]⟩], ?_, ?_, ?_⟩ <;> decide +kernel
 
 /-- the precondition of the `assert(*dataptr != end)` in decode_string / decode_user /
     decode_role is what the callers establish; without it the first read IS out of bounds
